@@ -36,6 +36,8 @@ class Stmt:
             return self.args[1:3]
         if k == "sinkk":
             return self.args[1:2]
+        if k == "nscript":
+            return self.args[1:3]
         if k == "script":
             return self.args[1:2]
         if k == "thrower":
@@ -208,6 +210,9 @@ def elaborate(p):
             elif k == "gate":
                 f = s.args[2]
                 nodes.append(FNode(lab, k, [ref(s.args[0], f[0] == "U"), ref(s.args[1], f[1] == "U")], {}, region))
+                env[key] = (lab, "main")
+            elif k == "nscript":     # native script node: two inputs, both required valid
+                nodes.append(FNode(lab, "script", [ref(s.args[1]), ref(s.args[2])], {"id": int(s.args[0]), "sos": False}, region))
                 env[key] = (lab, "main")
             elif k == "script":
                 ins = [ref(s.args[1], True)] if len(s.args) >= 2 else []
@@ -587,7 +592,7 @@ class Den:
                 emit = self.run_ops(n, sc[kk] if kk < len(sc) else [], t, True)
                 st["k"] = kk + 1
                 after = self.qstr(st, t)
-                tail = " a=%s" % self.desc(a, t) if a else ""
+                tail = (" a=%s b=%s" % (self.desc(a, t), self.desc(b, t))) if (a and b) else (" a=%s" % self.desc(a, t) if a else "")
                 # advance (after user code, also after a captured failure): consume due events when
                 # the node was scheduled-now at entry; pending later events stay armed
                 if was_due:
@@ -1024,6 +1029,26 @@ def gen_try_sched(rng):
     body = [Stmt(1, "src", [901]), Stmt(7, "src", [903]), Stmt(2, "tryx", [1, 1, 7]),
             Stmt(3, "tryout", [2]), Stmt(4, "tryerr", [2]), Stmt(5, "sink", [3]),
             Stmt(8, "acc", [1]), Stmt(9, "sink", [8])]
+    p.root = kahn_order(body)
+    return p
+
+
+def gen_nscript(rng):
+    """a NATIVE scheduler node with two required-valid inputs (the second mostly passive and late): wake-ups booked
+    in the start hook or earlier evaluations must survive evaluations in which the readiness gate holds the node
+    back (the scheduler bookkeeping after the gate does not depend on user code having run)"""
+    p = Prog()
+    p.end = p.start + rng.choice([14, 20])
+    p.ticks[901] = gen_ticks(rng, p.start, rng.randint(2, 6), 12)
+    late = rng.randint(2, 8)
+    p.ticks[903] = [(p.start + late, rng.randint(1, 9))] + ([(p.start + late + rng.randint(1, 5), rng.randint(1, 9))] if rng.random() < 0.4 else [])
+    sc = gen_script(rng, with_start=True)
+    if rng.random() < 0.7:      # a wake-up booked at start that falls due after the late input has arrived
+        sc[0] = ["S%d" % (p.start + late + rng.randint(1, 4))] + [o for o in sc[0] if not o.startswith("o")]
+    p.scripts[902] = sc
+    b = ("~7" if rng.random() < 0.7 else "7")
+    body = [Stmt(1, "src", [901]), Stmt(7, "src", [903]), Stmt(2, "nscript", [902, 1, b]),
+            Stmt(4, "sink", [2]), Stmt(5, "acc", [1]), Stmt(6, "sink", [5])]
     p.root = kahn_order(body)
     return p
 
